@@ -89,8 +89,10 @@ def h_text_match(value: str, text: str, match: int, coll: int, negate: bool, def
 
 
 # ------------------------------------------------------------------ prop-filter on a card
-def _card(n_fn, v1, v2, has_p1, pv1, pv1b_on, pv1b, has_p2, pv2):
-    """Build the vobject `contents` mapping and the oracle's view of the same card."""
+def _card(n_fn, v1, v2, has_p1, pv1, pv1b_on, pv1b, has_p2, pv2, grp=False):
+    """Build the vobject `contents` mapping and the oracle's view of the same card.  grp: the first FN line carries
+    a vCard group prefix ("item1.FN:..."), which a prop-filter name WITHOUT a prefix matches all the same
+    (RFC 6352 10.5.1); vobject keeps the group beside the name, the mapping key stays the bare name."""
     contents, model = {}, {}
     lines = []
     if n_fn >= 1:
@@ -99,7 +101,8 @@ def _card(n_fn, v1, v2, has_p1, pv1, pv1b_on, pv1b, has_p2, pv2):
     if n_fn >= 2:
         lines.append((v2, [["TYPE", pv2]] if has_p2 else []))
     if lines:
-        contents["fn"] = [vobject.base.ContentLine("FN", p, v) for (v, p) in lines]
+        contents["fn"] = [vobject.base.ContentLine("FN", p, v, group=("item1" if (grp and i == 0) else None))
+                          for i, (v, p) in enumerate(lines)]
         model["fn"] = [(v, {x[0]: list(x[1:]) for x in p}) for (v, p) in lines]
     contents["version"] = [vobject.base.ContentLine("VERSION", [], "3.0")]
     model["version"] = [("3.0", {})]
@@ -127,9 +130,9 @@ def _child(kind, text, match, coll, negate):
 
 
 def body_prop_filter(n_fn, v1, v2, has_p1, pv1, pv1b_on, pv1b, has_p2, pv2,
-                     name_sel, is_not_defined, ptest, t1, m1, neg1, t2, m2, neg2, coll):
+                     name_sel, is_not_defined, ptest, t1, m1, neg1, t2, m2, neg2, coll, grp=False):
     nchild, k1, k2 = ctx.PART  # concrete partition: number and kinds of the prop-filter's children
-    contents, model = _card(n_fn, v1, v2, has_p1, pv1, pv1b_on, pv1b, has_p2, pv2)
+    contents, model = _card(n_fn, v1, v2, has_p1, pv1, pv1b_on, pv1b, has_p2, pv2, grp)
     name = ["FN", "NICKNAME", "fn"][name_sel]
     el = ET.Element("{%s}prop-filter" % NS)
     el.set("name", name)
@@ -157,7 +160,7 @@ def body_prop_filter(n_fn, v1, v2, has_p1, pv1, pv1b_on, pv1b, has_p2, pv2,
 
 def h_prop_filter(n_fn: int, v1: str, v2: str, has_p1: bool, pv1: str, pv1b_on: bool, pv1b: str,
                   has_p2: bool, pv2: str, name_sel: int, is_not_defined: bool, ptest: int,
-                  t1: str, m1: int, neg1: bool, t2: str, m2: int, neg2: bool, coll: int) -> bool:
+                  t1: str, m1: int, neg1: bool, t2: str, m2: int, neg2: bool, coll: int, grp: bool) -> bool:
     """
     pre: 0 <= n_fn <= 2 and 0 <= name_sel <= 2 and 0 <= ptest <= 2
     pre: 0 <= m1 < 4 and 0 <= m2 < 4 and 0 <= coll < 3
@@ -165,7 +168,7 @@ def h_prop_filter(n_fn: int, v1: str, v2: str, has_p1: bool, pv1: str, pv1b_on: 
     post: _
     """
     return run(body_prop_filter, n_fn, v1, v2, has_p1, pv1, pv1b_on, pv1b, has_p2, pv2, name_sel,
-               is_not_defined, ptest, t1, m1, neg1, t2, m2, neg2, coll)
+               is_not_defined, ptest, t1, m1, neg1, t2, m2, neg2, coll, grp)
 
 
 # ------------------------------------------------------------------ filter (anyof / allof) on a resource
